@@ -273,9 +273,12 @@ static void case_random(vh_rng* r, long index) {
       /* reopen on the same object while it is open: the old stream must be closed exactly once */
       const char* mode = MODES[vh_below(r, 10)];
       if (mode[0] == 'r' && !exists) { mode = "w+"; }
-      snprintf(opd, sizeof opd, "sopen(\"%s\") while open", mode);
+      /* half of the time through the constructor: construct(f, path, mode) on a File that is open is a reopen as well */
+      int by_construct = vh_chance(r, 50);
+      snprintf(opd, sizeof opd, "%s(\"%s\") while open", by_construct ? "construct" : "sopen", mode);
       vh_op("%s", opd);
-      VH_CATCH(sopen(f, $S(path), $S((char*)mode)), exc);
+      if (by_construct) { VH_CATCH(construct(f, $S(path), $S((char*)mode)), exc); vh_count("reopens_through_the_constructor"); }
+      else { VH_CATCH(sopen(f, $S(path), $S((char*)mode)), exc); }
       vh_eval();
       if (exc) { vh_violation("C20:open:sopen-raised", "%s raised %s", opd, vh_exc_name(exc)); break; }
       ref_open(mode);
